@@ -267,6 +267,30 @@ with notrace():          # concrete menu members; real functools caches (the job
 return (r1 == r2 and accepted), "same"
 """
 
+VALID_HIST = """
+vi, ui, si = conc(vi, 8), conc(ui, 8), conc(si, 7)
+MENU = (True, 1.0, False, 0.0, 1, 0, -0.0, "1", b"1")
+with notrace():          # concrete menu members; real functools caches (the job runs with real_lru_cache)
+    def build():
+        return (schema.int, schema.float, schema.bool, schema.any(schema.int(1), schema.float(0.0)), schema.list(schema.int),
+                schema.dict({{"k": schema.float, ...: ...}}), schema.int(1) | schema.bool(False), schema.str("1"))[si]
+    def verdicts(S, x):
+        vals = (x, [x], [x, x], {{"k": x}}, {{"k": 1.5, "x": x}})
+        return ([sorted(type(e).__name__ for e in validate(S, v).get_errors()) for v in vals], [S == v for v in vals],
+                represent(S), represent(from_native(x)))
+    reset_module_state()
+    S = build()
+    r1 = verdicts(S, MENU[vi])
+    reset_module_state()
+    S2 = build()
+    y = MENU[ui]
+    verdicts(S2, y)      # an earlier validation of a value that may be ==/hash-equal to the one under test
+    validate(schema.any, y)
+    r2 = verdicts(S2, MENU[vi])
+    r3 = verdicts(build(), MENU[vi])
+return (r1 == r2 and r1 == r3), "same"
+"""
+
 REPR_HIST = """
 A, B, C, D, E = pool(p, n, al, x, rel)
 inner = schema.dict({"a": A, "b": schema.list([B, ...])})
@@ -293,6 +317,9 @@ def harnesses(tier, seed, active_kf=()):
                   pre=["0 <= vi <= 7", "0 <= ui <= 7"], timeout=120, functions=FUNCS, bounds=BOUNDS, meta={"real_lru_cache": True}))
     out.append(mk("C07.history.substitute", "vi: int, ui: int, oi: int", SUBST_HIST.replace("{{", "{").replace("}}", "}"), covers=("same",),
                   pre=["0 <= vi <= 8", "0 <= ui <= 8", "0 <= oi <= 3"], timeout=240, functions=FUNCS, bounds=BOUNDS,
+                  meta={"real_lru_cache": True}))
+    out.append(mk("C07.history.validate", "vi: int, ui: int, si: int", VALID_HIST.replace("{{", "{").replace("}}", "}"), covers=("same",),
+                  pre=["0 <= vi <= 8", "0 <= ui <= 8", "0 <= si <= 7"], timeout=300, functions=FUNCS, bounds=BOUNDS,
                   meta={"real_lru_cache": True}))
     out.append(mk("C07.history.represent", POOLP + ", first: bool", REPR_HIST, covers=("same",), pre=POOLPRE, timeout=120,
                   functions=FUNCS, bounds=BOUNDS))
